@@ -204,7 +204,7 @@ def run_one(m):
         open(p, 'wb').write(mutated)
         env = dict(os.environ, VERIF_REPO=d)
         try:
-            cp = subprocess.run(['/verif/check', prop, '--tier', TIER], env=env, capture_output=True, text=True, timeout=1500)
+            cp = subprocess.run(['/verif/check', prop, '--tier', TIER], env=env, capture_output=True, text=True, errors='replace', timeout=1500)
             rc = cp.returncode
             first = next((l.strip()[:200] for l in cp.stdout.splitlines() if l.strip().startswith('[')), '')
             if rc == 2:
@@ -217,7 +217,7 @@ def run_one(m):
         if verdict == 'SURVIVED' and TESTS:
             try:
                 tp = subprocess.run(['/venv/bin/python', '-m', 'pytest', '-q', '-x', '-p', 'no:cacheprovider', '-n', '2', '--timeout=120'] + TESTS,
-                                    cwd=d, env=dict(os.environ, PYTHONPATH=f'{d}/src:/verif/shim'), capture_output=True, text=True, timeout=900)
+                                    cwd=d, env=dict(os.environ, PYTHONPATH=f'{d}/src:/verif/shim'), capture_output=True, text=True, errors='replace', timeout=900)
                 rc_t, tail = tp.returncode, (tp.stdout.strip().splitlines()[-1] if tp.stdout.strip() else '')
             except subprocess.TimeoutExpired:
                 rc_t, tail = 1, 'tests timed out'
